@@ -30,12 +30,12 @@ func init() {
 
 // scriptLimit: a core.Limit whose estimate follows a generated trajectory; one step per OnSample.
 type scriptLimit struct {
-	mu      sync.Mutex
-	vals    []int
-	idx     int
-	cur     int
-	samples int
-	onSample func(rtt int64, inFlight int, drop bool)
+	mu        sync.Mutex
+	vals      []int
+	idx       int
+	cur       int
+	samples   int
+	onSample  func(rtt int64, inFlight int, drop bool)
 	listeners []core.LimitChangeListener
 }
 
@@ -66,11 +66,11 @@ func (l *scriptLimit) OnSample(startTime int64, rtt int64, inFlight int, didDrop
 // recStrategy forwards to a real strategy and records SetLimit calls with the
 // operation (of the calling task) they happened in.
 type recStrategy struct {
-	inner  core.Strategy
-	s      *Sched
-	mu     sync.Mutex
-	sets   []setRec
-	nSets  int
+	inner core.Strategy
+	s     *Sched
+	mu    sync.Mutex
+	sets  []setRec
+	nSets int
 }
 
 type setRec struct {
@@ -220,9 +220,9 @@ func runC01(r *Run) {
 	for i := 0; i < nTasks; i++ {
 		rounds := 1 + t.Intn(4, "rounds")
 		type rd struct {
-			hold time.Duration
-			o    int
-			set  int
+			hold  time.Duration
+			o     int
+			set   int
 			doSet bool
 		}
 		var rds []rd
